@@ -667,7 +667,7 @@ void HttpMessage::writeFile(const String& path, int begin, int end)
 	int n = 1;
 	file.seek(begin);
 	Long size = file.size();
-	if (begin != end)
+	if (begin != end || hasHeader("Content-Range")) // a range of one byte has begin == end
 		size = end - begin + 1;
 	int bytesSent = 0;
 	//HttpStatus status;
@@ -703,9 +703,9 @@ bool HttpMessage::putFile(const String& path, int begin, int end)
 	else
 	{
 		Long size = file.size();
-		if (end == 0)
+		if (end < 0 || (end == 0 && begin > 0)) // open-ended range: up to the last byte
 			end = int(size - 1);
-		if (end <= begin || begin < 0 || end > size)
+		if (end < begin || begin < 0 || end >= size)
 		{
 			setHeader("Content-Length", "0");
 			setHeader("Content-Range", String::f("bytes */%lli", size));
